@@ -90,6 +90,18 @@ def install(M):
         "std::iter::Iterator::nth": X.it_nth,
         "std::iter::Iterator::cloned": lambda e, st, a: M.adapt("copied", e, st, a),
         "std::iter::DoubleEndedIterator::next_back": X.it_next_back,
+        "std::iter::Iterator::any": lambda e, st, a: X.it_search(e, st, a, "bool"),
+        "std::iter::Iterator::all": lambda e, st, a: X.it_search(e, st, a, "bool"),
+        "std::iter::Iterator::position": lambda e, st, a: X.it_search(e, st, a, "index"),
+        "std::iter::Iterator::rposition": lambda e, st, a: X.it_search(e, st, a, "index"),
+        "std::iter::Iterator::find": lambda e, st, a: X.it_search(e, st, a, "elem"),
+        "<std::slice::Iter<'a, T> as std::iter::Iterator>::find": lambda e, st, a: X.it_search(e, st, a, "elem"),
+        "<std::slice::Iter<'a, T> as std::iter::Iterator>::any": lambda e, st, a: X.it_search(e, st, a, "bool"),
+        "<std::slice::Iter<'a, T> as std::iter::Iterator>::all": lambda e, st, a: X.it_search(e, st, a, "bool"),
+        "<std::slice::Iter<'a, T> as std::iter::Iterator>::position": lambda e, st, a: X.it_search(e, st, a, "index"),
+        "<std::slice::Iter<'a, T> as std::iter::Iterator>::rposition": lambda e, st, a: X.it_search(e, st, a, "index"),
+        "core::slice::ascii::<impl [u8]>::is_ascii": M.m_is_ascii,
+        "std::str::from_utf8": X.str_from_utf8,
     })
     if "core::slice::<impl [T]>::last" in t:
         base_last = t["core::slice::<impl [T]>::last"]
@@ -697,6 +709,54 @@ class Ext:
         if r is None:
             return None
         return [(s, k, (UNIT if k == "val" else v)) for s, k, v, _ in r]
+
+    def it_search(self, e, st, a, kind):
+        """any / all / position / rposition: the predicate runs on elements of the sequence (its obligations are collected on a
+        generic element, as for `for_each`); which elements satisfy it is not tracked, so the answer is an unknown boolean /
+        an unknown index below the element count or None.  A predicate that assigns captured variables is not modelled
+        (the search may stop early)."""
+        if not (isinstance(a[1], FnV) and a[1].fn in self.I.F.bodies):
+            return None
+        roots, consts = set(), set()
+        self.I.loops._roots(self.I.F.bodies[a[1].fn]["body"], roots, consts)
+        if roots:
+            return None
+        if isinstance(a[0], RefV):
+            return None      # the iterator would be left at the match position
+        it = self._iter(st, a[0])
+        if it is None:
+            return None
+        n = self.I.loops.count_of(st, it.seq)
+        if kind in ("index", "elem") and n is None:
+            return None
+
+        def step(s, acc, x):
+            return [(s2, k, (UNIT if k == "val" else v)) for s2, k, v in self.I.apply_fn(s, a[1], [x], e)]
+
+        r = self.I.loops.py_for(e, st, a[0], UNIT, step, closures=[a[1]])
+        if r is None:
+            return None
+        out = []
+        for s, k, v, _ in r:
+            if k != "val":
+                out.append((s, k, v))
+            elif kind == "bool":
+                out.append((s, "val", BoolV(flit(("b", self.I.fresh("pred"), True)))))
+            else:
+                p = self.I.fresh_int("pos", "usize")
+                for s2 in self.I.assume(s, f_and(flit(ge(p.l, it.pos)), flit(lt(p.l, n)))):
+                    if kind == "index":
+                        out.append((s2, "val", some(IntV(p.l - it.pos, "usize"))))
+                    else:
+                        for s3, v3 in self.I.loops.elem_of(s2, it.seq, p.l, e):
+                            out.append((s3, "val", some(v3)))
+                out.append((s, "val", NONE))
+        return out
+
+    def str_from_utf8(self, e, st, a):
+        """Ok(the same bytes viewed as str) or Err(_): validity is not tracked"""
+        return [(st, "val", StructV("std::result::Result", "Ok", {"0": a[0]})),
+                (st, "val", StructV("std::result::Result", "Err", {"0": Opaque("Utf8Error")}))]
 
     def range_inclusive_new(self, e, st, a):
         return [(st, "val", StructV("std::ops::RangeInclusive", "RangeInclusive", {"start": a[0], "end": a[1]}))]
